@@ -759,7 +759,7 @@ struct static_array<T, ::boost::multi::dimensionality_type{0}, Alloc>  // NOLINT
 	}
 
 	template<class Singleton,
-	         std::enable_if_t<!std::is_base_of_v<static_array, Singleton> && !std::is_same_v<Singleton, typename static_array::element_type>, int> = 0,
+	         std::enable_if_t<!std::is_base_of_v<static_array, Singleton> && !std::is_same_v<Singleton, typename static_array::element_type> && !multi::is_subarray<Singleton>::value, int> = 0,  // references are assigned by operator=(const_subarray const&) below
 	         class                                                                                                                                 = decltype(adl_copy_n(&std::declval<Singleton>(), 1, typename static_array::element_ptr{}))>
 	auto operator=(Singleton const& single) -> static_array& {
 		assign(&single);
@@ -1124,7 +1124,7 @@ struct array<T, 0, Alloc> : static_array<T, 0, Alloc> {
 	#endif
 	
 	template<class Other, 
-		std::enable_if_t<!std::is_base_of<array, std::decay_t<Other>>{}, int> =0>  // NOLINT(modernize-use-constraints) TODO(correaa) for C++20
+		std::enable_if_t<!std::is_base_of<array, std::decay_t<Other>>{} && !multi::is_subarray<Other>::value, int> =0>  // NOLINT(modernize-use-constraints) TODO(correaa) for C++20; references are assigned by static_array::operator=(const_subarray const&): `&other` is not a pointer to an element for them
 	auto operator=(Other const& other) -> array& {
 		this->assign(&other);
 		return *this;
